@@ -367,6 +367,33 @@ def checkRange (r : Option (Nat × Nat)) (count : Nat) (ports : List Nat) : Opti
     | some p => some ("err:port-in-use:" ++ toString p)
     | none => none
 
+/-- Two requested ranges share a port: reported is the lowest shared one (an empty range shares nothing). -/
+def overlapErr (a b : Option (Nat × Nat)) : Option String :=
+  match a, b with
+  | some r, some o =>
+    if max r.1 o.1 ≤ min r.2 o.2 then some ("err:port-requested-twice:" ++ toString (max r.1 o.1)) else none
+  | _, _ => none
+
+/-- `check_port_ranges_disjoint(&[node, metrics, rpc])`: every requested range against the earlier ones, in order
+(metrics/node, rpc/node, rpc/metrics) — if `add_node` makes the call at all (`requestedRangesDisjointChecked`, read from
+add_services/mod.rs). -/
+def checkDisjoint (np mp rp : Option (Nat × Nat)) : Option String :=
+  if Gen.Lifecycle.requestedRangesDisjointChecked then
+    match overlapErr mp np with
+    | some e => some e
+    | none =>
+      match overlapErr rp np with
+      | some e => some e
+      | none => overlapErr rp mp
+  else none
+
+/-- The last validation step of `add_node`: the RPC range against the registry, then the three requested ranges against
+each other. -/
+def checkRpc (np mp rp : Option (Nat × Nat)) (count : Nat) (ports : List Nat) : Option String :=
+  match checkRange rp count ports with
+  | some e => some e
+  | none => checkDisjoint np mp rp
+
 def maxNumber (reg : List Svc) : Nat := reg.foldl (fun m s => max m s.number) 0
 
 /-- `current_node_count + 1`: the number of the first service of an `add`. -/
@@ -447,7 +474,7 @@ def addNode (w : World) (fx : Fx) (file : List Svc) (count : Nat) (np mp rp : Op
   match checkRange mp count ports with
   | some e => (w, fx, .err e, file)
   | none =>
-  match checkRange rp count ports with
+  match checkRpc np mp rp count ports with
   | some e => (w, fx, .err e, file)
   | none =>
     let a := addLoop count (startNumber w.reg) (np.map (·.1)) (mp.map (·.1)) (rp.map (·.1)) metrics ver
@@ -545,14 +572,16 @@ def result (w : World) (op : Op) : Res := (exec w op).2.1
 
 def run (w : World) (ops : List Op) : World := ops.foldl step w
 
-/-! ## The registry file as an observable
+/-! ## The registry file as an observable; the command layer
 
 `Sys` = the in-memory world plus the content of the registry file. The file changes exactly where the code saves:
-inside `add_node` after every completed install, and in the callers (`cmd/node.rs`): `add`, `start`, `stop`, `remove`,
-`status` (the full refresh) save after a successful operation only, `upgrade` saves whatever the outcome; a bare partial
-refresh does not save. The daemon's `restart_handler` saves whatever the outcome of `restart_node_service` (it loads
-the registry from the file per request: histories put a `reload` in front).
-`reload` drops the in-memory registry and continues from the file (the next `antctl` invocation). -/
+inside `add_node` after every completed install, and in the callers. Where the callers save — `cmd/node.rs`
+`add` / `start` / `stop` / `remove` / `upgrade` / `status` in the `Ok` resp. `Err` arm of the operation's result, antctld's
+`restart_handler` — and whether a command runs the partial refresh between loading the registry and selecting its
+services is read from the source by rs2lean (`CmdCfg.gen`, one flag per site); a bare partial refresh does not save.
+`reload` drops the in-memory registry and continues from the file (the next `antctl` invocation; antctld loads the
+registry per request). `cmd o` is one whole `antctl` invocation: load the file, partial refresh if the command has one,
+service selection (`get_services_for_ops` does not find a service at Removed status), the operation, the save. -/
 
 structure Sys where
   w : World
@@ -564,29 +593,139 @@ def Sys.init : Sys := ⟨World.init, []⟩
 inductive SOp where
   | op (o : Op)
   | reload
+  | cmd (o : Op)
 deriving Repr
 
-/-- Does the caller of the operation (the `antctl` command) save the registry after this outcome? -/
-def callerSaves (w : World) : Op → Res → Bool
-  | .add .., r => !r.failed
-  | .start .., r => !r.failed
-  | .stop .., r => !r.failed
-  | .remove .., r => !r.failed
-  | .upgrade i .., _ => (w.reg[i]?).isSome
-  | .drestart i .., _ => (w.reg[i]?).isSome
-  | .refreshFull .., r => !r.failed
+/-- The save and refresh sites of the command layer. -/
+structure CmdCfg where
+  startRefreshFirst : Bool
+  startSavesOnOk : Bool
+  startSavesOnErr : Bool
+  stopRefreshFirst : Bool
+  stopSavesOnOk : Bool
+  stopSavesOnErr : Bool
+  removeRefreshFirst : Bool
+  removeSavesOnOk : Bool
+  removeSavesOnErr : Bool
+  upgradeRefreshFirst : Bool
+  upgradeSavesOnOk : Bool
+  upgradeSavesOnErr : Bool
+  addSavesOnOk : Bool
+  addSavesOnErr : Bool
+  statusSavesOnOk : Bool
+  statusSavesOnErr : Bool
+  daemonRestartSavesOnOk : Bool
+  daemonRestartSavesOnErr : Bool
+deriving Repr, DecidableEq
+
+/-- The command layer as rs2lean reads it from cmd/node.rs and bin/daemon/main.rs. -/
+def CmdCfg.gen : CmdCfg where
+  startRefreshFirst := Gen.Lifecycle.startRefreshFirst
+  startSavesOnOk := Gen.Lifecycle.startSavesOnOk
+  startSavesOnErr := Gen.Lifecycle.startSavesOnErr
+  stopRefreshFirst := Gen.Lifecycle.stopRefreshFirst
+  stopSavesOnOk := Gen.Lifecycle.stopSavesOnOk
+  stopSavesOnErr := Gen.Lifecycle.stopSavesOnErr
+  removeRefreshFirst := Gen.Lifecycle.removeRefreshFirst
+  removeSavesOnOk := Gen.Lifecycle.removeSavesOnOk
+  removeSavesOnErr := Gen.Lifecycle.removeSavesOnErr
+  upgradeRefreshFirst := Gen.Lifecycle.upgradeRefreshFirst
+  upgradeSavesOnOk := Gen.Lifecycle.upgradeSavesOnOk
+  upgradeSavesOnErr := Gen.Lifecycle.upgradeSavesOnErr
+  addSavesOnOk := Gen.Lifecycle.addSavesOnOk
+  addSavesOnErr := Gen.Lifecycle.addSavesOnErr
+  statusSavesOnOk := Gen.Lifecycle.statusSavesOnOk
+  statusSavesOnErr := Gen.Lifecycle.statusSavesOnErr
+  daemonRestartSavesOnOk := Gen.Lifecycle.daemonRestartSavesOnOk
+  daemonRestartSavesOnErr := Gen.Lifecycle.daemonRestartSavesOnErr
+
+def savesAfter (onOk onErr : Bool) (r : Res) : Bool := if r.failed then onErr else onOk
+
+/-- Does the caller of the operation save the registry after this outcome? (`upgrade`: `UpgradedButNotStarted` is an
+`Ok` of `ServiceManager::upgrade`; it counts as a failed operation everywhere else.) -/
+def callerSavesC (c : CmdCfg) (w : World) : Op → Res → Bool
+  | .start i .., r => (w.reg[i]?).isSome && savesAfter c.startSavesOnOk c.startSavesOnErr r
+  | .stop i .., r => (w.reg[i]?).isSome && savesAfter c.stopSavesOnOk c.stopSavesOnErr r
+  | .remove i .., r => (w.reg[i]?).isSome && savesAfter c.removeSavesOnOk c.removeSavesOnErr r
+  | .upgrade i .., r =>
+    (w.reg[i]?).isSome && (if r.text.startsWith "ok" then c.upgradeSavesOnOk else c.upgradeSavesOnErr)
+  | .drestart i .., r => (w.reg[i]?).isSome && savesAfter c.daemonRestartSavesOnOk c.daemonRestartSavesOnErr r
+  | .refreshFull .., r => savesAfter c.statusSavesOnOk c.statusSavesOnErr r
   | .saveload, r => !r.failed
   | _, _ => false
 
-def execS (s : Sys) : SOp → Sys × Res × Nat
-  | .reload => (⟨⟨s.file, s.w.os⟩, s.file⟩, .ok, 0)
-  | .op (.add count np mp rp metrics ver faults) =>
+/-- One operation and its caller's save. -/
+def execOpC (c : CmdCfg) (s : Sys) : Op → Sys × Res × Nat
+  | .add count np mp rp metrics ver faults =>
     match addNode s.w ⟨faults, 0⟩ s.file count np mp rp metrics ver with
-    | (w', fx, r, file') => (⟨w', if r.failed then file' else w'.reg⟩, r, fx.calls)
-  | .op o =>
+    | (w', fx, r, file') => (⟨w', if savesAfter c.addSavesOnOk c.addSavesOnErr r then w'.reg else file'⟩, r, fx.calls)
+  | o =>
     match exec s.w o with
-    | (w', r, c) => (⟨w', if callerSaves s.w o r then w'.reg else s.file⟩, r, c)
+    | (w', r, c') => (⟨w', if callerSavesC c s.w o r then w'.reg else s.file⟩, r, c')
 
+/-- Does the command run the partial refresh in front of its operation? -/
+def refreshFirst (c : CmdCfg) : Op → Bool
+  | .start .. => c.startRefreshFirst
+  | .stop .. => c.stopRefreshFirst
+  | .remove .. => c.removeRefreshFirst
+  | .upgrade .. => c.upgradeRefreshFirst
+  | _ => false
+
+/-- The registry entry a command addresses. -/
+def Op.target : Op → Option Nat
+  | .start i .. => some i
+  | .stop i .. => some i
+  | .remove i .. => some i
+  | .upgrade i .. => some i
+  | _ => none
+
+/-- `get_services_for_ops`: a service at Removed status is not found (by name, by peer id, or by "all services"). -/
+def eligible (w : World) (o : Op) : Bool :=
+  match o.target with
+  | none => true
+  | some i =>
+    match w.reg[i]? with
+    | some t => t.status != .removed
+    | none => true
+
+/-- The state a command works on: the registry as loaded from the file, partially refreshed if the command does so. -/
+def cmdEntry (c : CmdCfg) (s : Sys) (o : Op) : Sys :=
+  if refreshFirst c o then ⟨⟨s.file.map (svcRefresh s.w.os), s.w.os⟩, s.file⟩ else ⟨⟨s.file, s.w.os⟩, s.file⟩
+
+def execSC (c : CmdCfg) (s : Sys) : SOp → Sys × Res × Nat
+  | .reload => (⟨⟨s.file, s.w.os⟩, s.file⟩, .ok, 0)
+  | .op o => execOpC c s o
+  | .cmd o =>
+    if eligible (cmdEntry c s o).w o then execOpC c (cmdEntry c s o) o
+    else (cmdEntry c s o, .err "err:no-such-service", 0)
+
+def stepSC (c : CmdCfg) (s : Sys) (op : SOp) : Sys := (execSC c s op).1
+def runSC (c : CmdCfg) (s : Sys) (ops : List SOp) : Sys := ops.foldl (stepSC c) s
+
+/-! ### `NodeRegistry::load(path)`: where the loaded registry saves
+
+The registry file is the JSON of the whole `NodeRegistry`, `save_path` included, and `load` returns what it deserialises:
+a registry loaded from `path` saves to the path it was last SAVED to, not to `path` (`loadReg` does not look at its
+argument beyond finding the file). antctl and antctld always use `config::get_node_registry_path()`, so the two agree
+unless the file was moved or copied by hand; modelled here so that the observation is on record. -/
+
+structure RegFile where
+  savePath : Nat
+  nodes : List Svc
+deriving Repr
+
+/-- `fs` maps a path to the content of the file there. -/
+def loadReg (fs : List (Nat × RegFile)) (path : Nat) : Option RegFile := (fs.find? (fun e => e.1 = path)).map (·.2)
+def saveReg (fs : List (Nat × RegFile)) (r : RegFile) : List (Nat × RegFile) :=
+  fs.filter (fun e => e.1 ≠ r.savePath) ++ [(r.savePath, r)]
+/-- `cp`/`mv` of the registry file -/
+def copyFile (fs : List (Nat × RegFile)) (src dst : Nat) : List (Nat × RegFile) :=
+  match fs.find? (fun e => e.1 = src) with
+  | some e => fs.filter (fun e => e.1 ≠ dst) ++ [(dst, e.2)]
+  | none => fs
+
+def callerSaves (w : World) (o : Op) (r : Res) : Bool := callerSavesC CmdCfg.gen w o r
+def execS (s : Sys) (op : SOp) : Sys × Res × Nat := execSC CmdCfg.gen s op
 def stepS (s : Sys) (op : SOp) : Sys := (execS s op).1
 def runS (s : Sys) (ops : List SOp) : Sys := ops.foldl stepS s
 
